@@ -53,8 +53,11 @@ const K_BIN: usize = 11;
 const K_BOOL: usize = 12;
 const K_FSB: usize = 13;
 const K_IVL: usize = 14;
+const K_DBA: usize = 15; // DECIMAL on BYTE_ARRAY, written with the low-level column writer
 
-fn is_blob_kind(k: usize) -> bool { matches!(k, K_UTF8 | K_BIN | K_FSB | K_IVL) }
+fn is_blob_kind(k: usize) -> bool { matches!(k, K_UTF8 | K_BIN | K_FSB | K_IVL | K_DBA) }
+/// rows read back from the file / surfaced by the converter are byte strings
+fn is_blob_out(k: usize) -> bool { matches!(k, K_UTF8 | K_BIN | K_FSB | K_IVL) }
 
 /// The input of one written file. Everything the writer sees is a function of this.
 #[derive(Clone, Debug)]
@@ -289,7 +292,7 @@ fn extract(inp: &Input, arr: &ArrayRef) -> (Vec<bool>, Vec<BigInt>, Vec<Vec<u8>>
 }
 
 fn rows_groups(kind: usize, valid: &[bool], nums: &[BigInt], blobs: &[Vec<u8>]) -> [Group; 3] {
-    if is_blob_kind(kind) {
+    if is_blob_out(kind) {
         [gbools(valid.iter().copied()), blobs.iter().map(|b| BigInt::from(b.len())).collect(),
          blobs.iter().flat_map(|b| b.iter().map(|x| BigInt::from(*x))).collect()]
     } else {
@@ -316,8 +319,36 @@ fn writer_props(inp: &Input) -> WriterProperties {
     b.build()
 }
 
+/// BYTE_ARRAY DECIMAL column through SerializedFileWriter / the typed column writer.
+fn write_lowlevel(inp: &Input) -> Option<Bytes> {
+    use parquet::data_type::{ByteArray, ByteArrayType};
+    use parquet::file::writer::SerializedFileWriter;
+    let n = inp.nrows();
+    let schema = Arc::new(parquet::schema::parser::parse_message_type(&format!("message m {{ optional binary c (DECIMAL({},2)); }}", inp.prec)).ok()?);
+    let mut out = Vec::new();
+    let mut w = SerializedFileWriter::new(&mut out, schema, Arc::new(writer_props(inp))).ok()?;
+    if n > 0 {
+        let mut rg = w.next_row_group().ok()?;
+        let mut col = rg.next_column().ok()??;
+        let nb = inp.nbatches.max(1);
+        for bi in 0..nb {
+            let lo = n * bi / nb;
+            let hi = n * (bi + 1) / nb;
+            if hi == lo { continue; }
+            let vals: Vec<ByteArray> = (lo..hi).filter(|i| inp.valid[*i]).map(|i| ByteArray::from(inp.blobs[i].clone())).collect();
+            let defs: Vec<i16> = (lo..hi).map(|i| inp.valid[i] as i16).collect();
+            col.typed::<ByteArrayType>().write_batch(&vals, Some(&defs), None).ok()?;
+        }
+        col.close().ok()?;
+        rg.close().ok()?;
+    }
+    w.close().ok()?;
+    Some(Bytes::from(out))
+}
+
 /// Write the file; None if the writer returned an error.
 fn write_file(inp: &Input) -> Option<Bytes> {
+    if inp.kind == K_DBA { return write_lowlevel(inp); }
     let n = inp.nrows();
     let field = Field::new("c", arrow_type(inp), true);
     let schema = Arc::new(Schema::new(vec![field]));
@@ -814,6 +845,23 @@ fn gen_blobs(kind: usize, flen: usize, n: usize, tl: usize, r: &mut Rng) -> Vec<
     }).collect()
 }
 
+fn findings_mode() -> bool { std::env::var("C07_FINDINGS").is_ok() }
+
+/// BYTE_ARRAY decimals: big-endian two's complement.
+fn gen_dba(prec: usize, n: usize, r: &mut Rng) -> Vec<Vec<u8>> {
+    let vals = gen_nums(K_DF, 0, prec, n, r);
+    let minimal: Vec<Vec<u8>> = vals.iter().map(|v| v.to_signed_bytes_be()).collect();
+    // KNOWN-FINDING candidate (compare_greater_byte_array_decimals with unequal lengths): when the extra
+    // leading bytes of the longer operand are pure sign extension the function compares a[1..] with b[1..]
+    // lexicographically although they are not aligned, e.g. 32768 = [00 80 00] vs 32767 = [7F FF]:
+    // [80 00] < [FF] so 32768 > 32767 is answered false and min/max come out as min = 32768, max = 32767.
+    // Excluded input class: BYTE_ARRAY DECIMAL chunks whose values are encoded with different byte lengths;
+    // the generator sign-extends every value of a chunk to one common length.
+    if findings_mode() { return minimal; }
+    let width = minimal.iter().map(|b| b.len()).max().unwrap_or(1) + r.below(3);
+    minimal.into_iter().map(|b| { let fill = if b[0] & 0x80 != 0 { 0xFFu8 } else { 0 }; let mut v = vec![fill; width - b.len()]; v.extend(b); v }).collect()
+}
+
 fn key_f(bits: &BigInt, w: u32) -> BigInt {
     let half = BigInt::from(1) << (w - 1);
     if bits < &half { bits.clone() } else { &half - 1 - bits }
@@ -823,7 +871,10 @@ fn key_f(bits: &BigInt, w: u32) -> BigInt {
 fn arrange(inp: &mut Input, r: &mut Rng) {
     let mode = r.below(4); // 0,1 unordered; 2 asc; 3 desc
     if mode < 2 { return; }
-    if is_blob_kind(inp.kind) {
+    if inp.kind == K_DBA {
+        inp.blobs.sort_by_key(|b| BigInt::from_signed_bytes_be(b));
+        if mode == 3 { inp.blobs.reverse(); }
+    } else if is_blob_kind(inp.kind) {
         inp.blobs.sort();
         if mode == 3 { inp.blobs.reverse(); }
     } else {
@@ -865,6 +916,7 @@ fn gen_input(r: &mut Rng, kind: usize, nmax: usize) -> Input {
     let tl_stats = if r.chance(1, 8) { None } else { Some(*r.pick(&tl_choices)) };
     let tl_index = if r.chance(1, 8) { None } else { Some(*r.pick(&tl_choices)) };
     let flen = if kind == K_FSB { 1 + r.below(10) } else if kind == K_IVL { 12 } else { 0 };
+    let prec = if kind == K_DBA { 1 + r.below(38) } else { prec };
     let tl_for_gen = tl_index.or(tl_stats).unwrap_or(4).min(12);
     let mut inp = Input {
         kind, flen, prec, variant,
@@ -876,8 +928,18 @@ fn gen_input(r: &mut Rng, kind: usize, nmax: usize) -> Input {
         nbatches: 1 + r.below(3), bloom: false, ndv: 0, fpp_code: 0, hdr_stats: r.chance(1, 3),
         valid: gen_valid(n, r),
         nums: if is_blob_kind(kind) { vec![] } else { gen_nums(kind, variant, prec, n, r) },
-        blobs: if is_blob_kind(kind) { gen_blobs(kind, flen, n, tl_for_gen, r) } else { vec![] },
+        blobs: if kind == K_DBA { gen_dba(prec, n, r) } else if is_blob_kind(kind) { gen_blobs(kind, flen, n, tl_for_gen, r) } else { vec![] },
     };
+    if kind == K_DBA {
+        inp.pre = 0;
+        if !findings_mode() {
+            // KNOWN-FINDING candidate (BYTE_ARRAY decimal statistics are truncated like strings): with a
+            // statistics / column index truncate length shorter than the encoded decimal the stored bound is
+            // a different number (e.g. 256 = [01 00] cut to 1 byte: min [01] = 1, max [02] = 2 < 256).
+            // Excluded input class: BYTE_ARRAY DECIMAL with a truncate length below the value length.
+            inp.tl_stats = None; inp.tl_index = None;
+        }
+    }
     arrange(&mut inp, r);
     for i in 0..n { if !inp.valid[i] { if is_blob_kind(kind) { inp.blobs[i] = vec![]; } else { inp.nums[i] = BigInt::from(0); } } }
     inp
@@ -968,7 +1030,7 @@ pub fn generate(tier: &str, r: &mut Rng, emit: &mut dyn FnMut(Case)) {
     }
     let nfiles = if tier == "thorough" { 6000 } else { 600 };
     for i in 0..nfiles {
-        let kind = i % 15;
+        let kind = i % 16;
         let mut inp = gen_input(r, kind, 120);
         let tag = format!("file k{} v{} l{} ts{} ti{} n{} p{}", kind, inp.variant, inp.level, inp.tl_stats.map(|x| x.min(9)).unwrap_or(99),
             inp.tl_index.map(|x| x.min(9)).unwrap_or(99), (inp.nrows() + 19) / 20, inp.pre.min(1));
